@@ -184,7 +184,7 @@ func main() {
 		}
 		out.Harnesses = append(out.Harnesses, ho)
 		fmt.Fprintf(os.Stderr, "%s.%s %v: paths=%d kinds=%v queries=%d (sat %d unsat %d unknown %d err %d) solver=%.1fs wall=%.1fs merges=%d/%d sites=%v\n",
-			h.Pkg, h.Func, h.Params, ex.Paths, ex.Kinds, ex.Queries, ex.NSat, ex.NUnsat, ex.NUnknown, ex.NErrs, ex.SolverSec, ho.WallSec, ex.Merges, ex.MergeFails, ex.Sites)
+			h.Pkg, h.Func, shortParams(h.Params), ex.Paths, ex.Kinds, ex.Queries, ex.NSat, ex.NUnsat, ex.NUnknown, ex.NErrs, ex.SolverSec, ho.WallSec, ex.Merges, ex.MergeFails, ex.Sites)
 		if len(ex.FailWhy) > 0 {
 			fmt.Fprintf(os.Stderr, "  merge failures: %v\n", ex.FailWhy)
 		}
@@ -222,4 +222,12 @@ func write(path string, out Out) {
 func fatal(err error) {
 	fmt.Fprintln(os.Stderr, "gosym:", err)
 	os.Exit(3)
+}
+
+// shortParams keeps the progress line readable when a pre-script injected hundreds of parameters.
+func shortParams(p map[string]int64) any {
+	if len(p) <= 12 {
+		return p
+	}
+	return fmt.Sprintf("map[%d params]", len(p))
 }
